@@ -158,23 +158,29 @@ Proof.
       * apply ends_lf_app_false; [exact Et|]. apply ends_lf_app_false; [exact Ew|apply nocrlf_ends_lf, comment_nocrlf, Hc].
 Qed.
 
-Lemma til_std_table t p : std_table_tok t p -> til CS qstop t t.
+Lemma qt_std_table t p : std_table_tok t p -> qt CS qstop t.
 Proof.
   intros (w1 & k & w2 & -> & H1 & Hk & H2).
-  apply (til_app_any CS CS); [apply til_byte; reflexivity|].
-  apply (til_app_any CB CS); [apply til_ws, H1|].
-  apply (til_app CS CS qstop qstop); [apply (til_key k p Hk)| |intros r Hr; qs].
-  apply (til_app_any CB CS); [apply til_ws, H2|apply til_any, til_byte; reflexivity].
+  apply (qt_app_any CS CS); [apply qt_byte; reflexivity|].
+  apply (qt_app_any CB CS); [apply qt_ws, H1|].
+  apply (qt_app CS CS qstop qstop); [apply (qt_key k p Hk)| |intros r Hr; qs].
+  apply (qt_app_any CB CS); [apply qt_ws, H2|apply qt_any, qt_byte; reflexivity].
+Qed.
+
+Lemma til_std_table t p : std_table_tok t p -> til CS qstop t t.
+Proof. intro H. apply qt_til, (qt_std_table t p H). Qed.
+
+Lemma qt_array_table t p : array_table_tok t p -> qt CS qstop t.
+Proof.
+  intros (w1 & k & w2 & -> & H1 & Hk & H2).
+  apply (qt_app_any CS CS); [apply qt_plain; reflexivity|].
+  apply (qt_app_any CB CS); [apply qt_ws, H1|].
+  apply (qt_app CS CS qstop qstop); [apply (qt_key k p Hk)| |intros r Hr; qs].
+  apply (qt_app_any CB CS); [apply qt_ws, H2|apply qt_any, qt_plain; reflexivity].
 Qed.
 
 Lemma til_array_table t p : array_table_tok t p -> til CS qstop t t.
-Proof.
-  intros (w1 & k & w2 & -> & H1 & Hk & H2).
-  apply (til_app_any CS CS); [apply til_plain; reflexivity|].
-  apply (til_app_any CB CS); [apply til_ws, H1|].
-  apply (til_app CS CS qstop qstop); [apply (til_key k p Hk)| |intros r Hr; qs].
-  apply (til_app_any CB CS); [apply til_ws, H2|apply til_any, til_plain; reflexivity].
-Qed.
+Proof. intro H. apply qt_til, (qt_array_table t p H). Qed.
 
 Theorem item_itemz e l o : item_text e l o -> itemz e l o.
 Proof.
